@@ -207,6 +207,14 @@ def run(ctx):
         if not ok:
             ctx.violation("follows_configured_spectrum", {"history": seq[: si + 1], "hist": True}, spc, le.tolist())
             break
+    # the index given as a Python int (as a TOML file `index = 3` or a caller's literal does): the same spectrum
+    for pi in (0, 1, 2, 3, 4):
+        for lo, hi in ((6.0, 12.0), (7.0, 9.5)):
+            spec = {"type": "power", "index": int(pi), "lo": lo, "hi": hi}
+            v, _ = judge(spec, len(ts), ts)
+            ctx.tick(len(ts), ("int_index", pi, lo))
+            for c, e, o in v:
+                ctx.violation(c, {"spec": spec, "N": len(ts), "t": ts.tolist()}, e, o)
     import itertools as _it
 
     nlive = 0
